@@ -374,6 +374,8 @@ def _classify_use(n, p):
                 return ('coercion', 'b64decode without validate=True', par)
             if d in COERCIONS:
                 return ('coercion', f'{d}()', par)
+            if d in ('min', 'max') and len(par.args) >= 2:
+                return ('neutral', d, par)        # a comparison of several values (like `<`), not an iteration
             if d in ITER_FUNCS:
                 return ('coercion', f'iteration by {d}()', par)
             if d == 'round':
@@ -1269,10 +1271,14 @@ def struct_optional_none_vs_empty(ctx):
 def _nan_dropping(expr, valuenames):
     """a builtin min()/max() call (possibly nested) that has one of valuenames among its operands: for a NaN the result
     depends on the argument order and is one of the OTHER operands - the NaN silently becomes a number"""
+    # (builtin min / max keep their FIRST argument unless a later one compares smaller / larger: a NaN in first position
+    # survives - `min(value, fmax)` -, in any later position it is dropped - `min(fmax, value)`)
     for n in ast.walk(expr):
-        if isinstance(n, ast.Call) and isinstance(n.func, ast.Name) and n.func.id in ('min', 'max') and len(n.args) >= 2:
-            for a in n.args:
+        if isinstance(n, ast.Call) and isinstance(n.func, ast.Name) and n.func.id in ('min', 'max') and len(n.args) >= 2 and not n.keywords:
+            for i, a in enumerate(n.args):
                 if any(isinstance(x, ast.Name) and x.id in valuenames for x in ast.walk(a)):
+                    if i == 0 and isinstance(a, ast.Name):
+                        continue
                     return n
     return None
 
